@@ -1,1 +1,417 @@
-fn main() {}
+//! C09 — generated Rust builds for wasm32 and componentizes as exactly the requested world.
+//!
+//! Space: enumerated worlds (adversarial Rust names — keywords, prelude items, generator
+//! temporaries — in every naming position; every type constructor; resources; flat-parameter
+//! limits; kebab variants) + tests/codegen corpus x {owning, borrowing} x {std, no-std
+//! (`std_feature`)} x {merge-structurally-equal-types} x {BTreeMap, HashMap} x {raw-strings}.
+//! Oracle: bindings + generated stubs (`stubs` option, `export!(Stub)`) compile:
+//!  * no-std configurations: real `wasm32-unknown-unknown` cdylib build (nightly rustc, no_std
+//!    mini-sysroot from rust-src, wit-bindgen runtime built for wasm32 no_std, rust-lld), then
+//!    ComponentEncoder(validate) + world equality;
+//!  * std configurations: native `rustc --emit=metadata` against a natively built wit-bindgen;
+//!    the wasm32 half is attempted opportunistically in a `#![no_std]` crate (a compile failure
+//!    there is not a verdict) and otherwise replaced by comparing the extracted
+//!    `wasm_import_module`/`link_name`/`export_name` declarations with wit-parser's names.
+
+use e5_build::compo;
+use e5_build::rsbuild::{self, RConfig};
+use e5_build::util::*;
+use e5_build::worlds::{self, Case};
+use serde_json::{json, Value};
+use std::collections::{BTreeMap, BTreeSet};
+use std::path::Path;
+use wit_parser::*;
+
+const EXCLUSION_TABLE: &[(&str, &str, &str)] = &[
+    (
+        "borrowing-duplicate-if-necessary on wasi-http / more-variants (configuration not in the C09 factorial)",
+        "crates/test/src/rust.rs:82",
+        "name == \"wasi-http-borrowed-duplicate\" || name == \"more-variants.wit-borrowed-duplicate\"",
+    ),
+    (
+        "named fixed-length list with --async=all (configuration not in the C09 factorial)",
+        "crates/test/src/rust.rs:88",
+        "name == \"named-fixed-length-list.wit-async\"",
+    ),
+    ("variant:borrowed", "crates/test/src/rust.rs:97", "(\"borrowed\", &[\"--ownership=borrowing\"])"),
+    ("variant:no-std", "crates/test/src/rust.rs:103", "(\"no-std\", &[\"--std-feature\"])"),
+    ("variant:merge-equal", "crates/test/src/rust.rs:104", "(\"merge-equal\", &[\"--merge-structurally-equal-types\"])"),
+    ("variant:hashmap", "crates/test/src/rust.rs:105", "(\"hashmap\", &[\"--map-type=std::collections::HashMap\"])"),
+    ("default args: --generate-all, --stubs", "crates/test/src/rust.rs:110-114", "&[\"--stubs\"]"),
+];
+
+fn check_exclusion_table() {
+    let p = format!("{}/crates/test/src/rust.rs", vcommon::repo_root());
+    let src = std::fs::read_to_string(&p).unwrap_or_else(|e| vcommon::machinery(&format!("cannot read {p}: {e}")));
+    for (what, cite, needle) in EXCLUSION_TABLE {
+        if !src.contains(needle) {
+            vcommon::machinery(&format!("exclusion table out of date: `{what}` ({cite}) no longer found in {p}"));
+        }
+    }
+}
+
+pub const RUST_NAMES_QUICK: &[&str] = &[
+    // the property's list: keywords, prelude items, generator temporaries
+    "type", "self", "super", "crate", "match", "fn", "mod", "use", "impl", "trait", "where", "async",
+    "await", "dyn", "move", "ref", "static", "option", "result", "vec", "string", "box", "some", "none",
+    "ok", "err", "ptr0", "len0", "result0", "ret", "base", "e", "t", "map-key", "vec0", "handle",
+];
+
+pub const RUST_NAMES_MORE: &[&str] = &[
+    "as", "break", "const", "continue", "else", "enum", "extern", "false", "for", "if", "in", "let",
+    "loop", "mut", "pub", "return", "struct", "true", "unsafe", "while", "abstract", "become", "do",
+    "final", "macro", "override", "priv", "typeof", "unsized", "virtual", "yield", "try", "gen", "union",
+    "drop", "clone", "default", "send", "sync", "sized", "copy", "into", "from", "iterator", "debug",
+    "core", "alloc", "std", "wit-bindgen", "rt", "guest", "stub", "export", "exports", "new", "rep",
+    "ptr", "len", "layout", "address", "array", "arg0", "l0", "v0", "e0", "bytes0", "wit-import", "wit-import0",
+    "cleanup-list", "handle0", "this", "from-handle", "take-handle", "lift", "lower", "abi", "i32", "u8",
+    "str", "usize", "f32", "bool", "char", "t0", "result1", "ret-area", "cabi-post", "post-return",
+];
+
+/// Core-level names wit-parser expects for a sync world (legacy mangling).
+fn expected_decls(r: &Resolve, w: WorldId) -> (BTreeSet<(String, String)>, BTreeSet<String>) {
+    let m = ManglingAndAbi::Legacy(LiftLowerAbi::Sync);
+    let world = &r.worlds[w];
+    let mut imports = BTreeSet::new();
+    let mut exports = BTreeSet::new();
+    for (key, item) in world.imports.iter() {
+        match item {
+            WorldItem::Function(f) => {
+                imports.insert(r.wasm_import_name(m, WasmImport::Func { interface: None, func: f }));
+            }
+            WorldItem::Interface { id, .. } => {
+                for (_, f) in r.interfaces[*id].functions.iter() {
+                    imports.insert(r.wasm_import_name(m, WasmImport::Func { interface: Some(key), func: f }));
+                }
+                for (_, t) in r.interfaces[*id].types.iter() {
+                    if matches!(r.types[*t].kind, TypeDefKind::Resource) {
+                        imports.insert(r.wasm_import_name(
+                            m,
+                            WasmImport::ResourceIntrinsic { interface: Some(key), resource: *t, intrinsic: ResourceIntrinsic::ImportedDrop },
+                        ));
+                    }
+                }
+            }
+            WorldItem::Type { id, .. } => {
+                if matches!(r.types[*id].kind, TypeDefKind::Resource) {
+                    imports.insert(r.wasm_import_name(
+                        m,
+                        WasmImport::ResourceIntrinsic { interface: None, resource: *id, intrinsic: ResourceIntrinsic::ImportedDrop },
+                    ));
+                }
+            }
+        }
+    }
+    for (key, item) in world.exports.iter() {
+        match item {
+            WorldItem::Function(f) => {
+                exports.insert(r.wasm_export_name(m, WasmExport::Func { interface: None, func: f, kind: WasmExportKind::Normal }));
+            }
+            WorldItem::Interface { id, .. } => {
+                for (_, f) in r.interfaces[*id].functions.iter() {
+                    exports.insert(r.wasm_export_name(m, WasmExport::Func { interface: Some(key), func: f, kind: WasmExportKind::Normal }));
+                }
+                for (_, t) in r.interfaces[*id].types.iter() {
+                    if matches!(r.types[*t].kind, TypeDefKind::Resource) {
+                        exports.insert(r.wasm_export_name(m, WasmExport::ResourceDtor { interface: key, resource: *t }));
+                        for intrinsic in [ResourceIntrinsic::ExportedDrop, ResourceIntrinsic::ExportedNew, ResourceIntrinsic::ExportedRep] {
+                            imports.insert(r.wasm_import_name(m, WasmImport::ResourceIntrinsic { interface: Some(key), resource: *t, intrinsic }));
+                        }
+                    }
+                }
+            }
+            WorldItem::Type { .. } => {}
+        }
+    }
+    (imports, exports)
+}
+
+/// Compare textual declarations of the bindings with the expected core names (sync worlds only).
+fn compare_decls(r: &Resolve, w: WorldId, bindings: &str) -> Vec<String> {
+    let (wi, we) = expected_decls(r, w);
+    let (gi, ge) = rsbuild::extract_decls(bindings);
+    let gi: BTreeSet<(String, String)> = gi.into_iter().collect();
+    let ge: BTreeSet<String> = ge.into_iter().collect();
+    let mut d = Vec::new();
+    for x in wi.difference(&gi) {
+        d.push(format!("bindings lack import {}::{}", x.0, x.1));
+    }
+    for x in gi.difference(&wi) {
+        d.push(format!("bindings declare unexpected import {}::{}", x.0, x.1));
+    }
+    for x in we.difference(&ge) {
+        d.push(format!("bindings lack export {x}"));
+    }
+    for x in ge.difference(&we) {
+        if x.starts_with("cabi_post_") || x == "cabi_realloc" {
+            continue;
+        }
+        d.push(format!("bindings declare unexpected export {x}"));
+    }
+    d
+}
+
+fn evaluate(tc: &rsbuild::RustToolchain, case: &Case, cfg: &RConfig, edition: &str, dir: &Path) -> Value {
+    let t0 = std::time::Instant::now();
+    let mut rec = json!({"case": case.id, "config": cfg.name(), "edition": edition});
+    let (resolve, world) = match worlds::load(case) {
+        Ok(x) => x,
+        Err(e) => {
+            rec["outcome"] = json!("wit-rejected");
+            rec["msg"] = json!(trim_msg(&format!("{e:#}")));
+            return rec;
+        }
+    };
+    let feats = worlds::features(&resolve, world);
+    let res: Result<Value, rsbuild::Fail> = (|| {
+        let bindings = rsbuild::generate(&resolve, world, cfg).map_err(|m| rsbuild::Fail { stage: "generate", msg: trim_msg(&m) })?;
+        let want = compo::world_sig(&resolve, world);
+        let encode = |module: &[u8]| -> Result<Value, rsbuild::Fail> {
+            let (bytes, got) = compo::componentize(module).map_err(|m| rsbuild::Fail { stage: "encode", msg: trim_msg(&m) })?;
+            let d = compo::compare(&want, &got, true);
+            if !d.is_empty() {
+                return Err(rsbuild::Fail { stage: "world", msg: trim_msg(&d.join("; ")) });
+            }
+            Ok(json!({"module_bytes": module.len(), "component_bytes": bytes.len(), "imports": want.imports.len(), "exports": want.exports.len()}))
+        };
+        if cfg.std_feature {
+            let module = rsbuild::build_wasm(tc, dir, &bindings, edition)?;
+            let mut info = encode(&module)?;
+            info["route"] = json!("wasm32");
+            info["rs_bytes"] = json!(bindings.len());
+            Ok(info)
+        } else {
+            rsbuild::check_native(tc, dir, &bindings, edition)?;
+            // wasm32 half
+            let mut info = json!({"rs_bytes": bindings.len(), "imports": want.imports.len(), "exports": want.exports.len()});
+            let try_wasm = !(cfg.hashmap && feats.map);
+            let mut done = false;
+            if try_wasm {
+                match rsbuild::build_wasm(tc, dir, &bindings, edition) {
+                    Ok(module) => {
+                        let i2 = encode(&module)?;
+                        info["route"] = json!("native+wasm32");
+                        info["module_bytes"] = i2["module_bytes"].clone();
+                        info["component_bytes"] = i2["component_bytes"].clone();
+                        done = true;
+                    }
+                    Err(f) if f.stage == "link" => return Err(f),
+                    Err(f) => {
+                        info["no_std_build_of_std_bindings"] = json!(first_error(&f.msg));
+                    }
+                }
+            }
+            if !done {
+                if feats.async_funcs || feats.future_or_stream {
+                    info["route"] = json!("native-only");
+                } else {
+                    let d = compare_decls(&resolve, world, &bindings);
+                    if !d.is_empty() {
+                        return Err(rsbuild::Fail { stage: "decls", msg: trim_msg(&d.join("; ")) });
+                    }
+                    info["route"] = json!("native+decls");
+                }
+            }
+            Ok(info)
+        }
+    })();
+    if std::env::var_os("VERIF_KEEP").is_none() {
+        let _ = std::fs::remove_dir_all(dir);
+    }
+    match res {
+        Ok(info) => {
+            rec["outcome"] = json!("ok");
+            rec["info"] = info;
+        }
+        Err(f) => {
+            rec["outcome"] = json!("fail");
+            rec["stage"] = json!(f.stage);
+            rec["msg"] = json!(f.msg);
+        }
+    }
+    rec["secs"] = json!(t0.elapsed().as_secs_f64());
+    rec
+}
+
+fn main() {
+    let mut run = vcommon::Run::from_args("C09", "exploration");
+    vcommon::install_quiet_panic_hook();
+    check_exclusion_table();
+    let repo = std::fs::canonicalize(vcommon::repo_root())
+        .unwrap_or_else(|e| vcommon::machinery(&format!("repo root: {e}")))
+        .to_string_lossy()
+        .into_owned();
+    let scratch = Scratch::new("c09");
+    let tc = rsbuild::RustToolchain::prepare(&rsbuild::cache_dir(&repo), &scratch.path, &repo);
+
+    // ---- replay -----------------------------------------------------------------------------
+    if let Some(d) = run.replay_detail() {
+        let case = Case::from_json(&d["case"]).unwrap_or_else(|| vcommon::machinery("replay: no case"));
+        let cfgs: Vec<(RConfig, String)> = d["configs"]
+            .as_array()
+            .map(|a| {
+                a.iter()
+                    .filter_map(|c| {
+                        let s = c.as_str()?;
+                        let (cfg, ed) = s.rsplit_once('@')?;
+                        Some((RConfig::from_name(cfg)?, ed.to_string()))
+                    })
+                    .collect()
+            })
+            .unwrap_or_default();
+        println!("replaying case {} ({} configurations)\n{}", case.id, cfgs.len(), case.wit_text());
+        let mut bad = 0;
+        for (i, (cfg, ed)) in cfgs.iter().enumerate() {
+            let r = evaluate(&tc, &case, cfg, ed, &scratch.path.join(format!("r{i}")));
+            println!("  [{}@{}] outcome={} stage={}\n{}", cfg.name(), ed, r["outcome"].as_str().unwrap_or(""), r["stage"].as_str().unwrap_or("-"), r["msg"].as_str().unwrap_or(""));
+            if r["outcome"] == "fail" {
+                bad += 1;
+            }
+        }
+        scratch.remove();
+        std::process::exit(if bad > 0 { 1 } else { 0 });
+    }
+
+    // ---- the space --------------------------------------------------------------------------
+    let thorough = run.thorough();
+    let all_names: Vec<&str> = RUST_NAMES_QUICK.iter().chain(RUST_NAMES_MORE.iter()).copied().collect();
+    let mut cases: Vec<Case> = Vec::new();
+    // class A: every configuration in thorough; class B (per-position name worlds): quick configs
+    cases.extend(worlds::named_cases(if thorough { &all_names } else { RUST_NAMES_QUICK }, &["all"], "names"));
+    cases.extend(worlds::type_cases(true, false).into_iter().filter(|c| thorough || ["types:list", "types:result", "types:record-variant", "types:map"].contains(&c.id.as_str())));
+    cases.extend(worlds::resource_cases().into_iter().filter(|c| thorough || c.id.ends_with(":my-big-thing2") || c.id == "resource:cross-interface"));
+    cases.extend(worlds::limit_cases().into_iter().filter(|c| thorough || ["limits:params16", "limits:params17", "limits:results"].contains(&c.id.as_str())));
+    cases.extend(worlds::kebab_cases().into_iter().filter(|c| thorough || c.id == "kebab:multi-word"));
+    let n_class_a_enum = cases.len();
+    let corpus = worlds::corpus_cases();
+    let corpus_total = corpus.len();
+    let corpus_step = run.pick(4, 1);
+    cases.extend(corpus.into_iter().enumerate().filter(|(i, _)| i % corpus_step == 1 % corpus_step).map(|(_, c)| c));
+    let n_class_a = cases.len();
+    if thorough {
+        let positions: Vec<&str> = worlds::POSITIONS.iter().copied().filter(|p| *p != "all").collect();
+        cases.extend(worlds::named_cases(&all_names, &positions, "names-per-position"));
+    }
+
+    let full = RConfig::all();
+    let quick = RConfig::quick();
+    let mut work: Vec<(usize, RConfig, &'static str)> = Vec::new();
+    let mut rejected: Vec<Value> = Vec::new();
+    for (i, case) in cases.iter().enumerate() {
+        if let Err(e) = worlds::load(case) {
+            rejected.push(json!({"case": case.id, "error": first_error(&format!("{e:#}"))}));
+            continue;
+        }
+        let cfgs = if thorough && i < n_class_a { &full } else { &quick };
+        for cfg in cfgs {
+            work.push((i, cfg.clone(), "2021"));
+        }
+        if thorough && i < n_class_a {
+            for cfg in &quick {
+                work.push((i, cfg.clone(), "2024"));
+            }
+        }
+    }
+    if let Some(limit) = std::env::var("VERIF_LIMIT").ok().and_then(|s| s.parse::<usize>().ok()) {
+        work.truncate(limit);
+    }
+    rotate(&mut work, run.seed);
+
+    let workers = vcommon::ncpu().min(16);
+    let results = vcommon::par_map(work.len(), workers, |k| {
+        let (i, cfg, ed) = &work[k];
+        evaluate(&tc, &cases[*i], cfg, ed, &scratch.path.join(format!("w{k}")))
+    });
+
+    // ---- judge ------------------------------------------------------------------------------
+    let mut ok = 0usize;
+    let mut routes: BTreeMap<String, usize> = BTreeMap::new();
+    let mut fails: BTreeMap<(usize, String), Vec<(String, String)>> = BTreeMap::new();
+    let mut outcomes: BTreeMap<String, usize> = BTreeMap::new();
+    let mut nontrivial: BTreeSet<(String, String)> = BTreeSet::new();
+    let mut samples = vcommon::Samples::new(12);
+    let mut tried: BTreeMap<usize, usize> = BTreeMap::new();
+    let mut no_std_of_std: BTreeMap<String, usize> = BTreeMap::new();
+    let mut secs = 0.0;
+    for (k, r) in results.iter().enumerate() {
+        let (i, cfg, ed) = &work[k];
+        let cname = format!("{}@{}", cfg.name(), ed);
+        *tried.entry(*i).or_default() += 1;
+        secs += r["secs"].as_f64().unwrap_or(0.0);
+        match r["outcome"].as_str().unwrap_or("?") {
+            "ok" => {
+                ok += 1;
+                let inf = &r["info"];
+                let route = inf["route"].as_str().unwrap_or("?").to_string();
+                *routes.entry(route.clone()).or_default() += 1;
+                *outcomes.entry(format!("ok:{route}")).or_default() += 1;
+                if let Some(m) = inf["no_std_build_of_std_bindings"].as_str() {
+                    *no_std_of_std.entry(m.to_string()).or_default() += 1;
+                }
+                if inf["imports"].as_u64().unwrap_or(0) + inf["exports"].as_u64().unwrap_or(0) > 0 {
+                    nontrivial.insert((cases[*i].id.clone(), cname.clone()));
+                }
+                samples.offer(|| json!({"case": cases[*i].id, "config": cname, "outcome": "ok", "info": inf}));
+            }
+            "fail" => {
+                let stage = r["stage"].as_str().unwrap_or("?").to_string();
+                let msg = r["msg"].as_str().unwrap_or("").to_string();
+                *outcomes.entry(format!("fail:{stage}: {}", first_error(&msg))).or_default() += 1;
+                fails.entry((*i, stage)).or_default().push((cname, msg));
+            }
+            o => {
+                *outcomes.entry(o.to_string()).or_default() += 1;
+            }
+        }
+    }
+    for ((i, stage), list) in &fails {
+        let case = &cases[*i];
+        let cfgs: Vec<String> = list.iter().map(|l| l.0.clone()).collect();
+        let cfg_key = if cfgs.len() == tried[i] { "all".to_string() } else { cfgs.join(",") };
+        let key = format!("{}:{}:{}", case.id, stage, cfg_key);
+        run.violation(
+            &key,
+            &format!("world {} fails at stage `{stage}` under [{}]: {}", case.id, cfgs.join(", "), first_error(&list[0].1)),
+            json!({"case": case.to_json(), "configs": cfgs, "stage": stage, "message": list[0].1}),
+        );
+    }
+
+    let coverage = json!({
+        "evaluations": results.len(),
+        "distinct_nontrivial": nontrivial.len(),
+        "rule": "distinct (world, configuration@edition) pairs whose bindings + stubs compiled (wasm32 cdylib and/or native metadata) and whose world has at least one import or export that was compared (component world after ComponentEncoder, or extracted link names)",
+        "exhaustive": std::env::var_os("VERIF_LIMIT").is_none(),
+        "worlds": {"enumerated_full_factorial": n_class_a_enum, "corpus": n_class_a - n_class_a_enum, "corpus_total": corpus_total, "per_position_name_worlds": cases.len() - n_class_a},
+        "bounds": {
+            "name_alphabet": if thorough { all_names.clone() } else { RUST_NAMES_QUICK.to_vec() },
+            "positions": if thorough { worlds::POSITIONS.to_vec() } else { vec!["all"] },
+            "configurations_full": full.iter().map(|c| c.name()).collect::<Vec<_>>(),
+            "configurations_quick": quick.iter().map(|c| c.name()).collect::<Vec<_>>(),
+            "editions": if thorough { vec!["2021", "2024 (quick configurations)"] } else { vec!["2021"] },
+            "corpus_step": corpus_step,
+        },
+        "ok": ok,
+        "routes": routes,
+        "std_bindings_not_buildable_as_no_std": no_std_of_std,
+        "failing_world_stage_pairs": fails.len(),
+        "distinct_outcomes": outcomes,
+        "declared_exclusions": EXCLUSION_TABLE.iter().map(|(w, c, _)| json!({"what": w, "source": c})).collect::<Vec<_>>(),
+        "wit_rejected": rejected,
+        "toolchain": {"nightly": tc.nightly_version, "stable": tc.stable_version, "setup_seconds": tc.setup_secs},
+        "cpu_seconds": secs,
+        "samples": samples.items,
+    });
+    scratch.remove();
+    run.finish(
+        coverage,
+        vec![
+            "std-on-wasm32 cannot be built in this sandbox (no wasm32 std target, -Zbuild-std needs crates that are not cached): std configurations are type-checked natively (`rustc --emit=metadata`, x86-64) against a natively built wit-bindgen (features realloc, async, std, bitflags).".into(),
+            "no-std configurations (`std_feature`) are really built: nightly rustc --target wasm32-unknown-unknown --crate-type=cdylib -Cpanic=abort against core/alloc/compiler_builtins built from nightly rust-src and wit-bindgen built with features realloc, async, bitflags; the root crate is #![no_std] with `mod core {}` (as crates/test/src/rust.rs), a panic handler and a null global allocator; nothing is executed.".into(),
+            "For std configurations the same bindings are additionally built as a #![no_std] wasm32 cdylib when that compiles (then encoder + world equality are demanded); when it does not, the extracted wasm_import_module/link_name/export_name declarations are compared with wit-parser's legacy sync names (worlds without async functions, futures and streams only).".into(),
+            "HashMap is only combined with std (std::collections::HashMap does not exist in no_std).".into(),
+            "Warnings are not errors (-Dwarnings of crates/test is not used); default lint levels apply.".into(),
+            "The wasm32 root crate references every public non-generic function of the bindings outside `exports` from an extra exported function `verif_keepalive` (paths collected with syn), so the linker keeps all import wrappers and all imports of the world must appear in the component; imports carrying only types may be elided by wit-component.".into(),
+            "Per-position name worlds (thorough) run on the three quick configurations only; the full 24-configuration factorial runs on the `all`-position name worlds, the other enumerated worlds and the corpus.".into(),
+        ],
+    );
+}
